@@ -416,6 +416,56 @@ theorem dvb_effs (t : VB) (minSize fresh r : Nat) (hr : SafeNextCapacity t.capa 
   · exact dvb_grow t minSize false fresh r hr
   · unfold DVB.dtor; split <;> simp_all
 
+
+/- ------------------------------------------------------------------------------------------------------------
+   no self pointer: no member ever stores the address of the object's own inline storage in the pointer word, and
+   begin() is recomputed from the words on every call -- the model-level content of "trivially relocatable" (C14)
+   ------------------------------------------------------------------------------------------------------------ -/
+
+/-- the pointer word never designates inline storage -/
+def NotInl (p : PtrV) : Prop := ∀ w, p ≠ PtrV.inl w
+
+theorem no_self_pointer (t o : VB) (s N fresh minSize : Nat) (exact : Bool) (ht : NotInl t.dyn) (ho : NotInl o.dyn) :
+    NotInl (SVB.ctor t N).dyn ∧ NotInl (SVB.incrSize t).dyn ∧ NotInl (SVB.decrSize t).dyn ∧ NotInl (SVB.setSize t s).dyn
+    ∧ NotInl (SVB.move_assign t o N).1.dyn ∧ NotInl (SVB.move_assign t o N).2.1.dyn
+    ∧ NotInl (SVB.move_construct t o N).1.dyn ∧ NotInl (SVB.move_construct t o N).2.1.dyn
+    ∧ NotInl (SVB.swap_impl t o).1.dyn ∧ NotInl (SVB.swap_impl t o).2.1.dyn
+    ∧ NotInl (SVB.shrink_impl t N fresh).1.dyn
+    ∧ (∀ r, SVB.grow t minSize exact fresh = .ok r → NotInl r.1.dyn) := by
+  unfold NotInl at *
+  refine ⟨?_, ?_, ?_, ?_, ?_, ?_, ?_, ?_, ?_, ?_, ?_, ?_⟩
+  · unfold SVB.ctor; intro w; simp
+  · unfold SVB.incrSize; repeat' split
+    all_goals (intro w; simp; exact ht w)
+  · unfold SVB.decrSize; repeat' split
+    all_goals (intro w; simp; exact ht w)
+  · unfold SVB.setSize; repeat' split
+    all_goals (intro w; simp; exact ht w)
+  · unfold SVB.move_assign; repeat' split
+    all_goals (intro w; simp; first | exact ht w | exact ho w)
+  · unfold SVB.move_assign; repeat' split
+    all_goals (intro w; simp; first | exact ht w | exact ho w)
+  · unfold SVB.move_construct; repeat' split
+    all_goals (intro w; simp; first | exact ht w | exact ho w)
+  · unfold SVB.move_construct; repeat' split
+    all_goals (intro w; simp; first | exact ht w | exact ho w)
+  · unfold SVB.swap_impl; repeat' split
+    all_goals (intro w; simp; first | exact ht w | exact ho w)
+  · unfold SVB.swap_impl; repeat' split
+    all_goals (intro w; simp; first | exact ht w | exact ho w)
+  · unfold SVB.shrink_impl; repeat' split
+    all_goals (intro w; simp; try exact ht w)
+  · intro r hr
+    unfold SVB.grow at hr
+    repeat' split at hr
+    all_goals (first | (cases hr; done) | (cases hr; intro w; simp))
+
+/-- `begin()` depends on the words only: inline storage of *this* object when small, the stored pointer otherwise;
+    FixedCapacityVector always its own inline storage; amc::vector always the stored pointer -/
+theorem begin_from_words (t : VB) :
+    SVB.begin t = (if SVB.isSmall t then PtrV.inl 0 else t.dyn) ∧ FVB.begin t = PtrV.inl 0 ∧ DVB.begin t = t.dyn := by
+  refine ⟨begin_small t, ?_, ?_⟩ <;> simp [FVB.begin, DVB.begin]
+
 /-- the generated SmallVectorBase members of this size type satisfy every word law -/
 theorem svb_laws (N : Nat) (hN : N < kMax) (hN0 : 0 < N) : SmallLaws svbOps N where
   kmax := hN
